@@ -201,7 +201,11 @@ mod __vx_leafcheck {
                     src.push_str(&t);
                 }
                 src.push_str(trail);
-                let got = crate::generate(&src);
+                // a panic where a parse error is due is a mismatch (on a sentence it is the business of the totality check)
+                let Ok(got) = std::panic::catch_unwind(|| crate::generate(&src)) else {
+                    assert!(want == Verdict::Accept, "LEAFCHECK-FAIL leaf=generate(parse-error-span) input={:?} got=panic want=a parse error for token {:?}", src, want);
+                    continue;
+                };
                 let ok = match (&want, &got) {
                     (Verdict::Accept, Err(KikiErr::Parse(..))) | (Verdict::Accept, Err(KikiErr::Lex(..))) => false,
                     (Verdict::Accept, _) => true,
